@@ -2,7 +2,7 @@
 
 use bytes::Buf;
 use log::*;
-use std::io::{Cursor, Read, Write};
+use std::io::{Cursor, Error as IoError, ErrorKind as IoErrorKind, Read, Write};
 
 use crate::{
     error::{Error, ProtocolError, Result},
@@ -73,7 +73,14 @@ impl<Stream: Read + Write> HandshakeMachine<Stream> {
             HandshakeState::Writing(mut buf) => {
                 assert!(buf.has_remaining());
                 if let Some(size) = self.stream.write(Buf::chunk(&buf)).no_block()? {
-                    assert!(size > 0);
+                    if size == 0 {
+                        // This is the same as "Connection reset by peer"
+                        return Err(IoError::new(
+                            IoErrorKind::ConnectionReset,
+                            "Connection reset while sending",
+                        )
+                        .into());
+                    }
                     buf.advance(size);
                     Ok(if buf.has_remaining() {
                         RoundResult::Incomplete(HandshakeMachine {
